@@ -67,6 +67,7 @@ def scenario(draw, max_steps=12, reverse=None, layouts=("sparse", "dense"), extr
                u=draw(st.sampled_from([0.0, 0.1, -0.2, 0.45 if out_of_grid else 0.1])),
                v=draw(st.sampled_from([0.0, -0.1, 0.15])), seed=draw(st.integers(0, 10**6)))
     xf = draw(st.booleans()) if extra_forcing is None else extra_forcing
+    tunits = draw(st.sampled_from([None, None, None, "hours", "days", "minutes"]))
     # optional subgrid (only on grids wide enough to keep sea cells in its valid region), offsets i0 != j0 likely
     sub = None
     if draw(st.sampled_from(subgrids)) and im >= 10 and jm >= 9:
@@ -102,7 +103,7 @@ def scenario(draw, max_steps=12, reverse=None, layouts=("sparse", "dense"), extr
                ref=draw(st.sampled_from(ref_kinds)), lonlat=draw(st.sampled_from(lonlat)))
     return dict(grid=dict(jm=jm, im=im, N=N, seed=gseed, mask=mask, h=hkind, sub=sub),
                 time=dict(nsteps=nsteps, reverse=rev, pre=pre),
-                forcing=dict(gaps=gaps, partition=part, vel=vel, temp=xf),
+                forcing=dict(gaps=gaps, partition=part, vel=vel, temp=xf, tunits=tunits),
                 release=dict(rows=rows, continuous=cont, freq=freq),
                 ibm=dict(kills=kl, deactivate=deact, lifetime=lifetime),
                 tracker=dict(advection=draw(st.sampled_from(advection))),
@@ -142,7 +143,11 @@ def build(d: Path, scn, out_name="out.nc", record_output=True, record_ibm=False,
     if extra:
         extra = {k: v[order] for k, v in extra.items()}
     part = f["partition"] if not rev else f["partition"][::-1]
-    fname, files = scen.write_forcing(d, G, ft, U, V, partition=part, extra=extra)
+    # time axis of the forcing files: seconds (the usual ROMS way), or hours / days since another epoch as
+    # float64 (values that are not exactly representable)
+    tunits = {None: None, "hours": "hours since 1990-01-01 00:00:00", "days": "days since 1948-01-01 00:00:00",
+              "minutes": "minutes since 2000-01-01 00:00:00"}[f.get("tunits")]
+    fname, files = scen.write_forcing(d, G, ft, U, V, partition=part, extra=extra, time_units=tunits)
     cells = sea_cells(G, g.get("sub"))
     if not cells:
         raise ValueError("no sea cell")
